@@ -304,7 +304,15 @@ def run(ck):
     # the allocator rules of C16 (R16.1 candidates, R16.2 exhaustive scan, R16.3 lease under the requester's ID) are a necessary part of C17
     n4 = c16.dhcp_rules(ck, agg, c16.master(ck))
     n5 = request_frames(ck, agg)
+    # "... recorded under its ID in the master's table" also at a re-join: the lease store overwrites an older lease of the same ID (R16.4)
+    n6 = c16.table_ops(ck, agg, c16.master(ck))
+    # "afterwards a message sent to its node ID arrives": the receiver's queue refuses a frame whose (origin, frame id, type) it already holds,
+    # so every message a node's write()/send() builds must travel under a frame id of its own (R06.9, shared with C05/C06)
+    from . import c05
+    n7 = c05.validate(ck, agg, net.NetNode(ck, "rf24_network", "RF24Network"))
     agg.flush()
+    ck.floor("R16.4", "lease table scenarios", n6, 3)
+    ck.floor("R06.9", "sender scenarios", n7, 8)
     ck.floor("R16.1", "allocator relay scenarios", n4, 7)
     ck.floor("R17.6", "address requests examined", n5, 2)
     ck.floor("R17.1", "lookup scenarios", n1, 16)
